@@ -11,6 +11,7 @@ import XotModel.Lemmas.FmapMove
 import XotModel.Lemmas.FmapHistPos
 import XotModel.Lemmas.FmapHistSer
 import XotModel.Lemmas.FmapRetHist
+import XotModel.Lemmas.FmapNodesHist
 import XotModel.Model.ValueAccess
 
 namespace XotModel.Props
@@ -972,6 +973,69 @@ example : (runCalls c11Example3
     ([(.ok, .value (some (.str ['d']))), (.ok, .bool true), (.ok, .value (some (.str ['f']))),
       (.ok, .value (some (.str ['f']))), (.ok, .value none), (.ok, .value (some (.str ['g']))),
       (.ok, .value none), (.ok, .node (some 10)), (.ok, .unit)], true) := by
+  decide
+
+/-! ## The nodes that carry the entries, exactly
+
+  `NFam` (Model/FmapNodes.lean) is the reference's bookkeeping of WHICH NODE carries which key:
+  for every element and view the (key, node) list in order.  It follows the reference maps
+  (`knFollow`): after a call the list is the key list of the reference map, each key with the
+  node that carried it before, a key that was not there with the node the call GIVES
+  (`MapCall.given`: the parentless node passed in, the entry node of the other element, which
+  moves, or the node made on the spot, whose handle `fresh` = `next` the reference is told,
+  handles being opaque).  So the reference returns nodes on its own (`viewOf`, `specRetsN`). -/
+
+/-- One call, every view of every node: the (key, node) list afterwards is exactly the
+    reference's — the reference map's keys in order, every key that was there carried by the same
+    node, a new key by the node the call gives.  In particular every key of the view afterwards
+    has its carrier in the view. -/
+theorem C11_step_nodes (f : Forest) (hi : f.Inv) (F : Fam) (hF : ∀ x k, abs k f x = F x k)
+    (c : MapCall) (hok : c.ok f = true) (x : Nat) (k : Forest.MapKind) :
+    absKN k (c.run f).1 x =
+      knFollow (absKN k f x) (omKeys (c.spec F x k)) (c.given (nfamOf f) f.next) ∧
+    (∀ key ∈ omKeys (c.spec F x k),
+      (key, ((absKN k f x).lookup key).getD (c.given (nfamOf f) f.next)) ∈ absKN k (c.run f).1 x) ∧
+    (∀ key, getN f k x key = (absKN k f x).lookup key) := by
+  have h := call_nodes hi hF c hok x k
+  refine ⟨h, ?_, fun key => getN_lookup f k x key⟩
+  intro key hkey
+  rw [h]
+  exact List.mem_map.mpr ⟨key, hkey, rfl⟩
+
+/-- Histories with the nodes: along every history of calls (the hypotheses of
+    `C11_histories_returns`) every step returns what the reference returns, the reference now
+    deriving the returned NODES from its own node family (`specRetsN`: of the states gone through
+    only `next`, the handle a node creation hands out, is consulted); and afterwards the (key,
+    node) list of both views of every node is the reference's (`specCallsN`). -/
+theorem C11_histories_nodes (f : Forest) (hi : f.Inv) (cs : List MapCall)
+    (hok : (runCalls f cs).2.2 = true) :
+    (runCalls f cs).2.1.map (·.2) = specRetsN f (famOf f) (nfamOf f) cs ∧
+    (∀ e k, absKN k (runCalls f cs).1 e = specCallsN f (famOf f) (nfamOf f) cs e k) := by
+  obtain ⟨h1, h2⟩ := history_nodes cs f (famOf f) hi (fun _ _ => rfl) hok
+  exact ⟨h1, fun e k => congrFun (congrFun h2 e) k⟩
+
+/-- `knFollow` on its own terms: the keys are the given key list; a key that was there keeps its
+    node; a key that was not is carried by `given`. -/
+theorem C11_knFollow (old : List (Nat × Nat)) (keys' : List Nat) (given : Nat) :
+    (knFollow old keys' given).map (·.1) = keys' ∧
+    (∀ key nd, key ∈ keys' → old.lookup key = some nd → (key, nd) ∈ knFollow old keys' given) ∧
+    (∀ key, key ∈ keys' → old.lookup key = none → (key, given) ∈ knFollow old keys' given) := by
+  unfold knFollow
+  refine ⟨by rw [List.map_map]; exact List.map_id' _, ?_, ?_⟩
+  · intro key nd hk hl
+    exact List.mem_map.mpr ⟨key, hk, by rw [hl]; rfl⟩
+  · intro key hk hl
+    exact List.mem_map.mpr ⟨key, hk, by rw [hl]; rfl⟩
+
+/-- The reference returns along `c11CallsA`, nodes included, from the reference families of the
+    start state; and its node family at the end. -/
+example : specRetsN c11Example3 (famOf c11Example3) (nfamOf c11Example3) c11CallsA =
+    [.value (some (.str ['v'])), .value (some (.str ['w'])), .value none,
+     .value (some (.str ['x'])), .value (some (.str ['c'])), .node (some 9), .node (some 3),
+     .value (some (.ns 2)), .key 7, .value (some (.ns 4)), .node (some 3), .bool false] ∧
+    specCallsN c11Example3 (famOf c11Example3) (nfamOf c11Example3) c11CallsA 5 .attributes =
+      [(7, 6), (9, 9), (3, 3)] ∧
+    specCallsN c11Example3 (famOf c11Example3) (nfamOf c11Example3) c11CallsA 1 .attributes = [] := by
   decide
 
 end XotModel.Props
